@@ -607,7 +607,13 @@ func sendUDP(r *stack.Route, data buffer.VectorisedView, localPort, remotePort u
 		for _, v := range data.Views() {
 			xsum = header.Checksum(v, xsum)
 		}
-		udp.SetChecksum(^udp.CalculateChecksum(xsum, length))
+		xsum = ^udp.CalculateChecksum(xsum, length)
+		// RFC 768: a computed checksum of zero is transmitted as all ones;
+		// zero means "no checksum", which IPv6 receivers must discard.
+		if xsum == 0 {
+			xsum = 0xffff
+		}
+		udp.SetChecksum(xsum)
 	}
 
 	// Track count of packets sent.
